@@ -105,6 +105,9 @@ def run(facts, rep, tier):
     gm = [(bi, t) for bi, t in reg.proc.calls() if (callee_name(t) or "").endswith("get_message") and bi in reg.blocks]
     e = expr(reg.du, gm[0][1]["args"][0])
     chain = [x[1].split("::")[-1] for x in walk(e) if x[0] == "call"]
+    # (the chain may end in the constructor of a read buffer: its content comes from the reader, not from `new`)
+    while chain and chain[-1] in ("new", "with_capacity"):
+        chain = chain[:-1]
     bad = [c for c in chain if c not in DECORATION_ONLY]
     rep.oblige(not bad, ("line-chain",))
     rep.sample({"rule": "R02.1", "line_reaches_gate_through": chain})
